@@ -86,13 +86,15 @@ InertRule(e) ==
     /\ (e.method \notin InitMethods => (e.postlive = "false" /\ Same(e)))
     /\ (e.method \notin (AllowedNonZero \cup InitMethods) => e.nonzero = <<>>)
     /\ (e.method \notin (ErrAllowed \cup InitMethods) => e.errres = "false")
-    /\ (e.method \in {"Valid", "IsEqual"} => e.errres = "true")      \* these two REPORT that the receiver is not initialised, whatever the argument
+    /\ (e.method \in {"Valid", "IsEqual"} => e.errres = "true")
+    /\ e.twin \in {"same", "changed"}      \* these two REPORT that the receiver is not initialised, whatever the argument
     /\ e.health = "ok"
 
 \* Free zeroes the handle unless the instance is read-only (then: an error)
 FreeRule(e) ==
   (e.mode = "free") =>
     /\ e.panic = ""
+    /\ e.twin \in {"same", "changed"}        \* other handles of the instance (copies, a parent's slot) stay usable: no panic when they are looked at
     /\ (e.prero = "false" => (e.postlive = "false" /\ e.errres = "false"))
     /\ (e.prero = "true"  => (e.postlive = "true" /\ e.errres = "true" /\ Same(e)))
 
